@@ -3,7 +3,7 @@
     Sink/ReaderProofs.v, the models in Sink/Model.v and Sink/Reader.v. *)
 From Coq Require Import List NArith Bool Arith Lia.
 From PQ Require Import Sink.Model Sink.Proofs Sink.Termination Sink.Reader Sink.ReaderProofs.
-From PQ Require Import Sink.Liveness Sink.Copy Sink.CopyProofs Sink.Demand Sink.DemandProofs.
+From PQ Require Import Sink.Liveness Sink.Copy Sink.CopyProofs Sink.Demand Sink.DemandProofs Sink.FullErr Sink.Bloom.
 Import ListNotations.
 Open Scope N_scope.
 
@@ -436,6 +436,74 @@ Proof.
   exact (copy_err_fault_surfaces A site_checked Hc k bs xs t' e i Hk).
 Qed.
 
+(** A destination that TAKES every byte of a write and returns an error with
+    the full count (a quota reached by this write, a failed commit of the
+    block): [FullErrAt k], the write that takes the byte before offset k,
+    0 < k <= size of the file.  No byte is missing, so completeness of the
+    output says nothing: the error itself has to reach the caller.  It does,
+    from every write site (with or without the bufio layer, whose sticky error
+    keeps it until the next operation on the buffer) and on the copy path
+    (copySection looks at the error whatever the count). *)
+Theorem C14_full_count_error_surfaces :
+  all_sites_checked = true ->
+  forall (A : Type) (bufsize : option N) (xs : list (site A)) (k : N) t' e i,
+  0 < k -> k <= nlen A (all_data A xs) ->
+  close_current A (FullErrAt k) bufsize xs = (t', e, i) -> e <> ENone.
+Proof.
+  intros H A bs xs k t' e i Hk0 Hk. destruct (checked_all H) as [Hc _].
+  exact (full_err_fault_surfaces A k site_checked Hc bs xs t' e i Hk0 Hk).
+Qed.
+
+Theorem C14_copy_full_count_error_surfaces :
+  all_sites_checked = true ->
+  forall (A : Type) (bufsize : option N) (xs : list (item A)) (k : N) t' e i,
+  0 < k -> k <= nlen A (declared A [] xs) ->
+  copy_current A (FullErrAt k) bufsize xs = (t', e, i) -> e <> CNil.
+Proof.
+  intros H A bs xs k t' e i Hk0 Hk. destruct (checked_all H) as [Hc Hf].
+  unfold copy_current. rewrite Hf.
+  exact (copy_full_err_fault_surfaces A k site_checked Hc bs xs t' e i Hk0 Hk).
+Qed.
+
+(* non-vacuity: the magic written without the bufio layer, the destination
+   takes its four bytes and fails: the error is reported by site 0 although
+   the destination holds every byte; with a buffer of 100 bytes the final
+   flush of Close (index = number of sites) reports it; a copied section
+   whose last write fails the same way is reported by the item that copies it *)
+Example C14_full_count_error_example :
+  close_verdict true (FullErrAt 4) None [mkSite KHeader MWrite [(true, [80; 65; 82; 49])]] = (ESink, 0%nat, 4, true) /\
+  close_verdict true (FullErrAt 4) (Some 100) [mkSite KHeader MWrite [(true, [80; 65; 82; 49])]] = (ESink, 1%nat, 4, true) /\
+  copy_verdict true (FullErrAt 6) None
+    [IPlain (mkSite KHeader MWrite [(true, [80; 65; 82; 49])]); ICopied KCopiedData [(false, [1; 2])] 2] = (CDst ESink, 1%nat, 6, true).
+Proof. vm_compute. repeat split. Qed.
+
+(** Bloom filter lookups over a source that fails after the file was opened
+    (Sink/Bloom.v): through the filter of one column chunk or through the
+    filters of several row groups seen as one (MultiRowGroup, which is what
+    the readers build over a file with several row groups).  A value stored
+    in some row group is never reported absent, whichever reads fail; and
+    "absent" is only said when every filter was consulted and no read that
+    was needed failed. *)
+Theorem C14_bloom_stored_value_never_absent : forall ps,
+  (exists p, In p ps /\ p_clean p = true) -> fst (lookup ps) <> Absent.
+Proof. exact stored_value_never_absent. Qed.
+
+Theorem C14_bloom_absent_means_no_failure : forall ps,
+  fst (lookup ps) = Absent ->
+  snd (lookup ps) = length ps /\ forall p, In p ps -> p_needs_read p && p_faulted p = false.
+Proof. exact absent_means_no_failure. Qed.
+
+(* non-vacuity, and the behaviour the statement excludes: three row groups,
+   the value is stored in the third, the reads of the second filter fail: the
+   lookup fails; a lookup that takes the failed filter for "not here" finds
+   the value, but reports it absent when the failing filter is the third *)
+Example C14_bloom_example :
+  lookup [mkPart true false false; mkPart true true false; mkPart true false true] = (Failed, 2%nat) /\
+  lookup [mkPart true false false; mkPart false true false; mkPart true false true] = (Maybe, 3%nat) /\
+  multi_check_absorbing [Absent; Absent; Failed] = Absent /\
+  fst (lookup [mkPart true false false; mkPart true false false; mkPart true true true]) = Failed.
+Proof. vm_compute. repeat split. Qed.
+
 (* the items which are ordinary sites are the model of Sink/Model.v *)
 Theorem C14_copy_model_extends_sites : forall (A : Type) cur cnt chk (xs : list (site A)) i t q,
   run_items A cur cnt chk i t q (map IPlain xs) =
@@ -447,6 +515,10 @@ Print Assumptions C14_copy_source_short_reported.
 Print Assumptions C14_copy_fault_free_complete.
 Print Assumptions C14_copy_sink_fault_surfaces.
 Print Assumptions C14_copy_model_extends_sites.
+Print Assumptions C14_full_count_error_surfaces.
+Print Assumptions C14_bloom_stored_value_never_absent.
+Print Assumptions C14_bloom_absent_means_no_failure.
+Print Assumptions C14_copy_full_count_error_surfaces.
 
 (** ** The reader's demand *)
 
